@@ -243,6 +243,40 @@ def k4_model(h, w, max_h, max_w, scale, sizes_after):
     return f
 
 
+def affine_models(h, w, cfg, sel):
+    """Arithmetic used ONLY by the known-finding signature K6 (validated against the real code in the `affine` part:
+    keypoints follow M exactly, image content follows S*M*S^-1 to <= 0.04 px).
+
+    M is kornia's affine for the forced corner `sel` of the ranges in cfg (rotation by the angle about the image
+    centre (w/2-0.5, h/2-0.5), per-axis scale, then translation by the fraction of the image size); RandomAffine's
+    default align_corners=False makes warp_affine resample the image with S*M*S^-1 instead, S = scaling about the
+    centre by w/(w-1), h/(h-1).  Returns (M, M_image) as functions of an (x, y) array."""
+
+    def pick(lo, hi, k):
+        return lo if k < 0 else hi if k > 0 else 0.5 * (lo + hi)
+
+    a = math.radians(pick(-cfg["rotation"], cfg["rotation"], sel[0]))
+    sc = cfg.get("scale")
+    if sc is None:
+        sx = sy = 1.0
+    else:
+        sx = pick(sc[0], sc[1], sel[3])
+        sy = pick(sc[2], sc[3], sel[3]) if len(sc) == 4 else sx
+    t = np.array([pick(-cfg["translate_width"], cfg["translate_width"], sel[1]) * w, pick(-cfg["translate_height"], cfg["translate_height"], sel[2]) * h])
+    c = np.array([w / 2 - 0.5, h / 2 - 0.5])
+    A = np.array([[math.cos(a), -math.sin(a)], [math.sin(a), math.cos(a)]]) @ np.diag([sx, sy])
+    k = np.array([w / (w - 1.0), h / (h - 1.0)])
+
+    def M(p):
+        return A @ (np.asarray(p, dtype=np.float64) - c) + c + t
+
+    def M_image(p):
+        q = c + (np.asarray(p, dtype=np.float64) - c) / k
+        return c + (M(q) - c) * k
+
+    return M, M_image
+
+
 # ---------------------------------------------------------------------------
 # the kornia seam: enumerated corners instead of random draws
 
